@@ -129,6 +129,17 @@ def main(budget):
                     if not same_stateful(np, a, g):
                         return dict(violation=True, cases=cases, what="round trip changed an ndarray subclass with state of its own (%s, %s): %r -> %r" % (label, name, a, g),
                                     witness=dict(subclass=type(a).__name__, compress=repr(comp)))
+        # items wider than the reader's 256 KiB buffer (long fixed-width strings, records with a big sub-array field)
+        wide = [np.array([b"a" * 300000, b"b" * 10], dtype="S300000"), np.zeros(2, dtype=[("id", "<i4"), ("blob", "u1", (270000,))]), np.zeros((), dtype="V262145")]
+        for a in wide:
+            for comp in comps[:2]:
+                cases += 1
+                path = os.path.join(root, "w.pkl")
+                joblib.dump({"k": a}, path, compress=comp)
+                g = joblib.load(path)["k"]
+                if not same(a, g):
+                    return dict(violation=True, cases=cases, what="round trip changed an array whose items are wider than the read buffer (item size %d)" % a.dtype.itemsize,
+                                witness=dict(dtype=str(a.dtype)[:60], shape=a.shape, compress=repr(comp)))
         for a in itertools.chain(arrays(np, rnd), subclass_arrays(np)):
             for comp in comps:
                 cases += 1
